@@ -210,17 +210,59 @@ def _package_rbf_checks(ctx, P):
         Rung("package RBF failed: new transaction cannot have mempool ancestors", "HASPARENTS", {"HASPARENTS": ("each(workspaces).m_parents.empty()", False)},
              loop=r"each\(workspaces\)"),
     ], is_accept=is_true_ret, is_reject=lambda e: e.kind == "ret" and not is_true_ret(e))
+    # the eviction-count limit bounds the package's total evictions: one evaluation, outside any loop, on the merged direct conflicts
+    gsites = uniq_sites(sites(f, call_to("GetEntriesForConflicts"), P))
+    once = len(gsites) == 1 and not gsites[0].loops
+    ctx.ob("PackageRBFChecks/limit-once", "LADDER", "GetEntriesForConflicts (the 100-cluster replacement limit) is evaluated exactly once in PackageRBFChecks, outside any "
+           "per-transaction loop, so that it bounds the evictions of the whole package", once, gsites[0].where if gsites else f.where,
+           {"calls": [(s.line, [loop_range_key(l, sub) for l in s.loops]) for s in gsites]})
+    if not once:
+        return
+    Yarg = strip_wrappers(call_args(gsites[0].expr)[2]) if len(call_args(gsites[0].expr)) > 2 else None
+    if not (is_expr(Yarg) and Yarg[0] == "local"):
+        txt = xkey(Yarg, sub) if is_expr(Yarg) else None
+        if txt and "m_iters_conflicting" in txt:
+            ctx.ob("PackageRBFChecks/direct-union", "PROVENANCE", "the direct conflicts given to GetEntriesForConflicts are the union of every package transaction's "
+                   "m_iters_conflicting, not one workspace's set", False, gsites[0].where, {"arg": txt})
+            return
+        raise AnalysisBroken("PackageRBFChecks: direct conflict argument %s is neither a local set nor a workspace's conflict set" % txt)
     X, g = _conflict_set(ctx, f, P, sub, "PackageRBFChecks", r"\w+")
-    # the direct-conflict set is the union over all workspaces
-    Y = call_args(g.expr)[2]
-    if Y[0] != "local":
-        raise AnalysisBroken("PackageRBFChecks: direct conflict argument is not a local set")
-    _elem_effect(ctx, f, P, sub, r"each\(workspaces\)",
-                 lambda e, s: callee(e) in ("std::set::merge", "std::set::insert") and match(["local", Y[1]], call_obj(e)) and
-                 any("each(workspaces).m_iters_conflicting" in xkey(a, s) for a in call_args(e)),
-                 "PackageRBFChecks/direct-union", "the direct conflicts given to GetEntriesForConflicts are the union of every package transaction's m_iters_conflicting",
-                 before=[("GetEntriesForConflicts", [g])])
+    Y = Yarg
+    _direct_union(ctx, f, P, sub, Y[1], g)
     _fee_and_removal(ctx, f, P, sub, "PackageRBFChecks", X, uniq_sites(sites(f, call_to("PaysForRBF"), P)), uniq_sites(sites(f, call_to("ImprovesFeerateDiagram"), P)))
+
+
+def _direct_union(ctx, f, P, sub, Y, gsite):
+    """Y is filled from m_iters_conflicting of EVERY workspace (merge / insert(range) / insert(begin,end) / element-wise nested loop), completely and
+    unconditionally, before GetEntriesForConflicts is asked; nothing else is put into Y."""
+    adders = sites(f, lambda e: callee(e) and callee(e).rsplit("::", 1)[-1] in ("merge", "insert", "emplace", "insert_range", "emplace_hint") and
+                   match(["local", Y], call_obj(e)), P)
+    good, bad = [], []
+    for s in adders:
+        ss = site_subst(sub, s)
+        args = [xkey(a, ss) for a in call_args(s.expr)]
+        outer = s.loops[0] if s.loops else None
+        shape = None
+        if outer is not None and index_loop(outer, sub)[0] == "workspaces" and loop_is_total(outer):
+            src = "each(workspaces).m_iters_conflicting"
+            if len(s.loops) == 1 and (args == [src] or args == [src + ".begin()", src + ".end()"] or args == [src + ".cbegin()", src + ".cend()"]):
+                shape = "whole-set"
+            elif len(s.loops) == 2 and index_loop(s.loops[1], ss)[0] == src and loop_is_total(s.loops[1]) and args in (["each(%s)" % src], ["%s[%s]" % (src, index_loop(s.loops[1], ss)[1])]):
+                shape = "element-wise"
+            if shape and [g for g in in_loop_guards(s, outer) if g.kind != "post"]:
+                shape = None
+        (good if shape else bad).append((s, shape, args))
+    ok = len(good) >= 1 and not bad
+    ctx.ob("PackageRBFChecks/direct-union", "PROVENANCE", "the direct conflicts given to GetEntriesForConflicts are the union of every package transaction's "
+           "m_iters_conflicting (complete loop over all workspaces, unconditional), and nothing else", ok, good[0][0].where if good else f.where,
+           {"additions": [(s.line, sh, a) for s, sh, a in good + bad]})
+    decl = [st for st in stmts(f.body) if st.get("k") == "decl" and st.get("n") == Y]
+    fresh = len(decl) == 1 and (decl[0].get("i") is None or (is_expr(decl[0]["i"]) and decl[0]["i"][0] == "ctor" and len(decl[0]["i"]) == 2))
+    ctx.ob("PackageRBFChecks/direct-union-fresh", "PROVENANCE", "the merged set starts empty", fresh, gsite.where)
+    for s, _, _ in good:
+        okd = F.implies(gsite.formula(sub), done_atom(s.loops[0]))
+        ctx.ob("PackageRBFChecks/direct-union/before-GetEntriesForConflicts@L%s" % s.line, "ORDER", "GetEntriesForConflicts is asked only after the merge loop over all "
+               "workspaces completed", okd, gsite.where)
 
 
 # ------------------------------------------------------------------------------------------ callers
@@ -230,7 +272,7 @@ def _accept_single(ctx, P):
     sub = naming(f, P)
     atoms = {"PRE": "MemPoolAccept::PreChecks(args, ws)", "RBF": "m_subpackage.m_rbf", "REPL": "MemPoolAccept::ReplacementChecks(ws)",
              "HASCONF": ["ws.m_conflicts.size()", ("ws.m_conflicts.empty()", False)],
-             "SPENDSCONF": re.compile(r"EntriesAndTxidsDisjoint\(\w+, ws\.m_conflicts, .+\)")}
+             "SPENDSCONF": re.compile(r"EntriesAndTxidsDisjoint\(.+, ws\.m_conflicts, .+\)")}
     spec = "PRE && (!RBF || REPL) && (!HASCONF || !SPENDSCONF)"
     txt = "only past PreChecks, ReplacementChecks when the subpackage replaces anything, and the bad-txns-spends-conflicting-tx rung"
     fin = sites(f, call_to("MemPoolAccept::FinalizeSubpackage"), P)
@@ -243,14 +285,16 @@ def _accept_single(ctx, P):
     ctx.floor("EntriesAndTxidsDisjoint call", len(ds), 1)
     for s in ds:
         a = call_args(s.expr)
-        src = None
-        if a and a[0][0] == "local":
-            vals = local_values(f, a[0][1])
-            src = vals[0][1] if len(vals) == 1 else None
-        ok = src is not None and is_call_to(CS + "CalculateMemPoolAncestors", src) and show(call_obj(src)) == "m_subpackage.m_changeset" and \
+        src = strip_wrappers(a[0]) if a else None       # directly the call, or through single-definition locals
+        seen = set()
+        while is_expr(src) and src[0] == "local" and src[1] not in seen:
+            seen.add(src[1])
+            vals = local_values(f, src[1])
+            src = strip_wrappers(vals[0][1]) if len(vals) == 1 and is_expr(vals[0][1]) else None
+        ok = is_expr(src) and is_call_to(CS + "CalculateMemPoolAncestors", src) and show(call_obj(src)) == "m_subpackage.m_changeset" and \
             [xkey(x, sub) for x in call_args(src)] == ["ws.m_tx_handle"]
         ctx.ob("AcceptSingle/ancestors@L%s" % s.line, "PROVENANCE", "the set tested against the conflicts is the staged transaction's full ancestor set "
-               "(m_changeset->CalculateMemPoolAncestors(ws.m_tx_handle))", ok, s.where, {"source": show(src) if src else None})
+               "(m_changeset->CalculateMemPoolAncestors(ws.m_tx_handle))", ok, s.where, {"source": show(src) if is_expr(src) else None})
 
 
 def _accept_multiple(ctx, P):
